@@ -109,6 +109,12 @@ def gen_kc(rng, malformed=False):
   pts = gen_points_grid(rng, n, dim)
   if rng.random() < 0.08:
     pts = [list(pts[0]) for _ in range(n)]  # all points equal
+  if rng.random() < 0.12 and n >= 3:
+    # candidates that are ALMOST equidistant (squared distances differing by 2^-27 .. 2^-40 relative): exactly representable in double
+    # arithmetic, so the farthest / nearest choice is decided, but only just
+    e = 2.0 ** -rng.choice([27, 28, 30, 34, 40])
+    pts = [[0.0] * dim, [1.0] + [0.0] * (dim - 1), [0.5 + rng.choice([-1, 1]) * e] + [0.0] * (dim - 1)] + [[rng.choice([0.25, 0.75, 2.0, -1.0 + e])] + [0.0] * (dim - 1)
+                                                                                                               for _ in range(n - 3)]
   first, k = rng.randrange(n), rng.randint(1, n - 1)
   if malformed:
     first, k = rng.choice([(first, 0), (first, n), (first, n + 2), (n, k), (n + 3, k)])
